@@ -100,6 +100,9 @@ func checkC02(R *Run) {
 	R.rule("split-guard", "for every split function installed on a scanner that reads a stream: a token data[a:b] is only returned where b <= len(data) has been established by a dominating comparison, constant-bound reads of data are covered by a dominating len(data) >= K test, and the 'need more data' returns are (0, nil, nil)")
 	R.rule("preamble-read", "the handshake and the file transfer preamble are accumulated with io.ReadFull into a buffer of exactly the frame size (12 / 16 bytes) before being decoded")
 
+	R.rule("single-buffered-reader", "per connection entry point at most one buffering reader (bufio.Scanner / bufio.Reader) wraps the connection (also through helpers that are handed the connection), and no raw read of the connection is dominated by its creation: a second reader never sees what the first one buffered")
+	R.ruleSingleBufferedReader()
+	R.floor("single-buffered-reader", 2)
 	dec := P.positionalDecoders()
 	var decNames []string
 	for n := range dec {
